@@ -13,7 +13,8 @@ IDX = ["i", "j", "k", "l"]
 NAMES = ["a", "b", "c", "d", "e"]
 
 INT_LITS = [0, 1, 2, 3, 7]
-FLOAT_LITS = ["0.0", "0.5", "1.5", "2.0", "0.25", "12.5E-1", "1e0", "3.0"]
+FLOAT_LITS = ["0.0", "0.5", "1.5", "2.0", "0.25", "12.5E-1", "1e0", "3.0", "0.5", "1.5", "2.0",
+              "0.30000000000000004", "3.141592653589793", "0.1"]  # the last three need up to 17 significant digits
 
 ALL_PERMS = {n: list(itertools.permutations(range(n))) for n in range(5)}
 
@@ -43,7 +44,7 @@ def expr_trees(draw, max_leaves=5, orders=None, literal_rate=15, big_literals=Fa
         if draw(st.integers(0, 99)) < literal_rate:
             if draw(st.booleans()):
                 if big_literals and draw(st.integers(0, 3)) == 0:
-                    leaves.append(["i", draw(st.sampled_from([2**31 - 1, 2**31, 65536, 3000000000, 4294967296]))])
+                    leaves.append(["i", draw(st.sampled_from([2**31 - 1, 2**31, 65536, 3000000000, 4294967296, 2**63, 10**40, 10**308, 10**309, 10**400]))])
                 else:
                     leaves.append(["i", draw(st.sampled_from(INT_LITS))])
             else:
@@ -188,6 +189,7 @@ def kernel_cases(
     min_dim=0,
     order_choices=(0, 1, 1, 2, 2, 2, 3),
     density_choices=None,
+    zero_dim10=0,
 ):
     orders = {}
     tree = draw(expr_trees(max_leaves=max_leaves, orders=orders, big_literals=big_literals,
@@ -208,10 +210,15 @@ def kernel_cases(
             fm[t[1]] = draw(format_for(t[2], rank, p_sparse_in, 6))
     sizes = {}
     choices = [d for d in DIM_CHOICES if d >= min_dim]
-    for cls in alias_classes(tree, tgt):
+    classes = alias_classes(tree, tgt)
+    for cls in classes:
         s = draw(st.sampled_from(choices))
         for i in cls:
             sizes[i] = s
+    if zero_dim10 and classes and draw(st.integers(0, 9)) < zero_dim10:
+        # exactly one (alias class of) index has size 0 while the others keep their sizes
+        for i in classes[draw(st.integers(0, len(classes) - 1))]:
+            sizes[i] = 0
     vc = value_class or draw(st.sampled_from(["exact", "exact", "exact", "general"]))
     inputs = {}
     for name in seen:
@@ -282,3 +289,43 @@ def case_features(case):
     if case.get("value_class") == "general":
         f.add("general_values")
     return f
+
+
+@st.composite
+def lattice_cases(draw, max_operands=4, value_class="exact"):
+    """Several (3-4) distinct compressed operands over the SAME index list, combined by a random + - * tree, into
+    a compressed output in natural level order: the deepest use of the merge lattice (which operand is exhausted
+    first decides which loop of the lattice runs)."""
+    order = draw(st.sampled_from([1, 1, 2]))
+    idxs = IDX[:order]
+    n = draw(st.integers(3, max_operands))
+    leaves = [["t", NAMES[k], list(idxs)] for k in range(n)]
+    if draw(st.integers(0, 3)) == 0:
+        leaves.insert(draw(st.integers(0, n)), ["i", draw(st.sampled_from([1, 2]))])
+
+    def build(ls):
+        if len(ls) == 1:
+            return ls[0]
+        k = draw(st.integers(1, len(ls) - 1))
+        return [draw(st.sampled_from("++-**")), build(ls[:k]), build(ls[k:])]
+
+    tree = build(list(draw(st.permutations(leaves))))
+    target = ["o", list(idxs)]
+    fmt_in = "s" * order if order == 1 else draw(st.sampled_from(["ss", "ds", "ss"]))
+    fm = {"o": "s" * order if order == 1 else draw(st.sampled_from(["ss", "ds"]))}
+    sizes = {i: draw(st.sampled_from([3, 4, 5, 6])) for i in idxs}
+    inputs = {}
+    for t in tensors_in_order(tree):
+        fm[t] = fmt_in if draw(st.integers(0, 4)) else ("d" + fmt_in[1:] if order == 2 else fmt_in)
+        dims = tuple(sizes[i] for i in idxs)
+        inputs[t] = draw(stored_tensor(dims, fm[t], value_class, draw(st.sampled_from([1, 2, 2, 3]))))
+    return {"target": target, "expr": tree, "assignment": X.assignment_text(target, tree), "formats": fm,
+            "sizes": sizes, "inputs": inputs, "value_class": value_class}
+
+
+def tensors_in_order(tree):
+    out = []
+    for t in X.tensors(tree):
+        if t[1] not in out:
+            out.append(t[1])
+    return out
